@@ -10,7 +10,7 @@ from pathlib import Path
 from typing import Any, Dict, List, Optional
 
 VERIF = Path(__file__).resolve().parent.parent
-EVIDENCE_DIR = VERIF / "evidence"
+EVIDENCE_DIR = Path(os.environ.get("ODCVERIF_EVIDENCE_DIR") or (VERIF / "evidence"))
 REPLAY_DIR = EVIDENCE_DIR / "replay"
 KNOWN_FILE = VERIF / "known_findings.json"
 
@@ -95,7 +95,7 @@ class Run:
 
     # -- finish ------------------------------------------------------------------------------
     def finish(self) -> int:
-        EVIDENCE_DIR.mkdir(exist_ok=True)
+        EVIDENCE_DIR.mkdir(exist_ok=True, parents=True)
         REPLAY_DIR.mkdir(exist_ok=True, parents=True)
         # dedupe by key (a construct reported through two scopes is one instance)
         uniq: Dict[str, Instance] = {}
